@@ -169,6 +169,9 @@ func oracleC04() *Result {
 	for _, c := range regressionInputs("C04") {
 		add(c, "regression")
 	}
+	for _, e := range chainSources {
+		add([]byte(e), "chains")
+	}
 	for _, e := range edgeSources {
 		add([]byte(e), "edge")
 		for _, v := range triviaVariants([]byte(e), rng, 3) {
